@@ -333,6 +333,11 @@ func runAny(c Case, st *stats) (obs string) {
 		st.counters["prog-cases"]++
 		st.counters["nontrivial"]++
 		obs = c.ID[:strings.Index(c.ID+"/", "/")] + ":" + obs
+	case "shared":
+		fails, obs = runShared(c)
+		st.counters["shared-builtin-cases"]++
+		st.counters["nontrivial"]++
+		obs = "shared:" + obs
 	case "immut":
 		fails, obs = runImmut(c)
 		st.counters["immut-cases"]++
@@ -444,7 +449,7 @@ func main() {
 	}
 	var capped int32
 	blocks := graphBlocks(r.Thorough())
-	small := append(append(append(isolationProgs(), valueProgs()...), freshProgs()...), immutCases()...)
+	small := append(append(append(isolationProgs(), valueProgs()...), freshProgs()...), append(immutCases(), sharedCases()...)...)
 	small = append(small, fileCases()...)
 
 	workers := runtime.GOMAXPROCS(0)
@@ -696,6 +701,8 @@ func describe(c Case) string {
 			fmt.Fprintf(&sb, "  --- m%d = %q ---\n%s", i, namer(c.Names).name(i), indent(moduleSource(i, g.targets(i+1, c.Desc), c.ModVars[i], namer(c.Names))))
 		}
 		return sb.String()
+	case "shared":
+		return c.ID
 	case "immut":
 		return fmt.Sprintf("%s module=%q op=%q", c.ID, c.Export, c.Op)
 	case "file":
